@@ -105,7 +105,19 @@ func shortStack() string {
 	out := []string{}
 	for _, l := range lines {
 		if strings.Contains(l, "/repo/") || strings.Contains(l, "snapcore/snapd") {
-			out = append(out, strings.TrimSpace(l))
+			l = strings.TrimSpace(l)
+			// keep the message a deterministic function of the run: no
+			// pointer-valued arguments, no pc offsets
+			if i := strings.Index(l, "(0x"); i >= 0 {
+				l = l[:i]
+			}
+			if i := strings.Index(l, " +0x"); i >= 0 {
+				l = l[:i]
+			}
+			if strings.Contains(l, "(...)") {
+				l = strings.Replace(l, "(...)", "", 1)
+			}
+			out = append(out, l)
 		}
 		if len(out) > 24 {
 			break
